@@ -33,7 +33,7 @@ func init() {
 		MinEvals:    floor(150000, 4000000),
 		MinDistinct: floor(20000, 500000),
 		RequiredCells: func(string) []string {
-			cells := []string{"a/true", "a/false", "a/map-literal-reordered", "b/and", "b/or", "b/all", "b/any", "c/and", "c/all", "d", "e", "f/missing-required", "f/missing-optional", "data/nan-inf", "data/empty-collections", "via/constructors", "via/ipld"}
+			cells := []string{"a/true", "a/false", "a/map-literal-reordered", "a/link-same-hash-other-codec", "a/float-opposite-huge", "b/and", "b/or", "b/all", "b/any", "c/and", "c/all", "d", "e", "f/missing-required", "f/missing-optional", "data/nan-inf", "data/empty-collections", "via/constructors", "via/ipld"}
 			for _, k := range ref.AllKinds {
 				cells = append(cells, "a/kind/"+k)
 			}
@@ -334,7 +334,7 @@ func runC11(w *mon.W) {
 	// ---------- (a) classical reading inside the resolving fragment
 	na := w.Share(w.Pick(40000, 1500000))
 	for it := 0; it < na; it++ {
-		d := gen.MapValue(r, 3, gen.ValOpts{MaxWidth: 5, NonFinite: it%5 == 0, IntegralF: true})
+		d := gen.MapValue(r, 3, gen.ValOpts{MaxWidth: 5, NonFinite: it%5 == 0, IntegralF: true, Links: true})
 		if len(d.M) == 0 {
 			continue
 		}
@@ -355,6 +355,7 @@ func runC11(w *mon.W) {
 		if reorderedMapLiteral(p, d) {
 			w.Cover("a/map-literal-reordered")
 		}
+		c11CoverDelicate(w, p, d)
 		bp, ok := c11Build(w, p)
 		if !ok {
 			continue
@@ -718,4 +719,32 @@ func c11Glob(r *rand.Rand, s string) string {
 		return "*" + gen.EscapeGlob(s[k:])
 	}
 	return string(b)
+}
+
+// c11CoverDelicate records delicate operand pairs that occurred: links that share a
+// multihash but are different links, and ordering of huge floats of opposite sign.
+func c11CoverDelicate(w *mon.W, p ref.Policy, d ref.V) {
+	var walk func(s ref.Stmt, d ref.V)
+	walk = func(s ref.Stmt, d ref.V) {
+		if len(s.Subs) == 0 {
+			if o, v := ref.Select(s.Sel, d); o == ref.OValue {
+				if s.Kind == "==" && v.K == ref.KLink && s.Val.K == ref.KLink && !v.C.Equals(s.Val.C) && string(v.C.Hash()) == string(s.Val.C.Hash()) {
+					w.Cover("a/link-same-hash-other-codec")
+				}
+				if s.Kind != "==" && s.Kind != "like" && v.K == ref.KFloat && s.Val.K == ref.KFloat && math.Abs(v.F) > 1e307 && math.Abs(s.Val.F) > 1e307 && (v.F < 0) != (s.Val.F < 0) {
+					w.Cover("a/float-opposite-huge")
+				}
+			}
+			return
+		}
+		if s.Kind == "all" || s.Kind == "any" {
+			return
+		}
+		for _, c := range s.Subs {
+			walk(c, d)
+		}
+	}
+	for _, s := range p {
+		walk(s, d)
+	}
 }
